@@ -1,4 +1,5 @@
 import Cuckoo.Proofs.ProtoInv
+import Cuckoo.Gen.MemOrder
 /-!
 # C03 — element access is exclusive: no lost updates, no torn reads, no data races (protocol part)
 
@@ -73,6 +74,37 @@ theorem no_interleaved_access (s s1 : PS) (h : Reach s) (t u : Tid) (stripe : Na
   have a1 := (access_guard s u stripe (by rw [hu]; rfl)).2.1
   rw [hheld] at a1
   exact (Option.some.inj a1).symm
+
+/-! ### memory orders (regenerated from the LLVM IR of the source on every run, T-C) -/
+
+open Cuckoo.Gen.MemOrder in
+/-- at least acquire -/
+def isAcq : Cuckoo.Gen.MemOrder.Ord → Bool
+  | .acquire | .acq_rel | .seq_cst => true
+  | _ => false
+
+open Cuckoo.Gen.MemOrder in
+/-- at least release -/
+def isRel : Cuckoo.Gen.MemOrder.Ord → Bool
+  | .release | .acq_rel | .seq_cst => true
+  | _ => false
+
+/-- the synchronisation the protocol relies on has the required strength in the current source: taking a spinlock
+is an acquire (and release) read-modify-write, releasing it is a release store, the hashpower and the resize counter are
+loaded with acquire and published with release (the counter bump of every resize path included), and the
+pending-stripe counter is decremented with acq_rel and stored with release -/
+theorem sync_orders_sufficient :
+    (∀ e ∈ Cuckoo.Gen.MemOrder.accesses, e.1 = "lock" → isAcq e.2.2 = true ∧ isRel e.2.2 = true) ∧
+    (∀ e ∈ Cuckoo.Gen.MemOrder.accesses, e.1 = "unlock" → isRel e.2.2 = true) ∧
+    (∀ e ∈ Cuckoo.Gen.MemOrder.accesses, (e.1 = "hashpower_get" ∨ e.1 = "load_resize_counter") → isAcq e.2.2 = true) ∧
+    (∀ e ∈ Cuckoo.Gen.MemOrder.accesses,
+      (e.1 = "hashpower_set" ∨ e.1 = "cuckoo_fast_double" ∨ e.1 = "cuckoo_expand_simple" ∨ e.1 = "bump_resize_counter" ∨
+       e.1 = "lazy_set") → isRel e.2.2 = true) ∧
+    (∀ e ∈ Cuckoo.Gen.MemOrder.accesses, e.1 = "lazy_dec" → isAcq e.2.2 = true ∧ isRel e.2.2 = true) ∧
+    (∀ f ∈ ["lock", "unlock", "hashpower_get", "hashpower_set", "load_resize_counter", "cuckoo_fast_double",
+            "cuckoo_expand_simple", "bump_resize_counter", "lazy_set", "lazy_dec"],
+      ∃ e ∈ Cuckoo.Gen.MemOrder.accesses, e.1 = f) := by
+  decide
 
 /-! non-vacuity -/
 example : (run (init 3 4) [.rcLoad 0, .hpLoad 0, .genLoad 0, .acquire 0 ⟨0,2⟩, .rcLoad 0, .access 0 2]).isSome = true := by decide
